@@ -9,27 +9,57 @@ with what the model designates.
 """
 
 import itertools
+import json
 import os
 import re
 import shutil
+import sys
 import tempfile
 from urllib.parse import quote
 
-import falcon
-import falcon.asgi
 
-from vlib.drivers import asgi as A
-from vlib.drivers import wsgi as W
-from vlib.models import c02_dispatch as M
+def _custom_verbs_for_this_process():
+    """FALCON_CUSTOM_HTTP_METHODS (docs/api/routing.rst "Custom HTTP Methods") is read once, when falcon.constants
+    is imported.  Half of the shard processes (shard % 4 in (1, 2): both index parities) run with two custom verbs
+    enabled; a replay runs with whatever the witness ran with; an externally set variable is respected."""
+    ext = os.environ.get('FALCON_CUSTOM_HTTP_METHODS')
+    if ext is not None:
+        return [m.strip().upper() for m in ext.split(',') if m.strip()]
+    argv = sys.argv
+    try:
+        if '--replay' in argv:
+            return list(json.load(open(argv[argv.index('--replay') + 1]))['witness'].get('custom', []))
+        if '--shard' in argv:
+            shard = int(argv[argv.index('--shard') + 1].split('/')[0])
+            return ['PURGE', 'BAN'] if shard % 4 in (1, 2) else []
+    except Exception:  # noqa
+        pass
+    return []
+
+
+CUSTOM = _custom_verbs_for_this_process()
+if CUSTOM and 'falcon.constants' not in sys.modules:
+    os.environ['FALCON_CUSTOM_HTTP_METHODS'] = ','.join(CUSTOM)
+
+import falcon  # noqa: E402
+import falcon.asgi  # noqa: E402
+import falcon.constants  # noqa: E402
+
+from vlib.drivers import asgi as A  # noqa: E402
+from vlib.drivers import wsgi as W  # noqa: E402
+from vlib.models import c02_dispatch as M  # noqa: E402
+
+M.configure_custom(CUSTOM)
 
 LEVEL = 'exploration'
 SHARDS = {'quick': 4, 'thorough': 16}
 BUDGET = {'quick': 15, 'thorough': 150}
 
 NDIRS = 5
-UNKNOWN_VERBS = ['FOO', 'get', 'GET_ITEM']
-REQ_METHODS = M.STANDARD + M.META + UNKNOWN_VERBS
-SUFFIXES = ['item', 'a', 'a_b']
+UNKNOWN_VERBS = ['FOO', 'get', 'GET_ITEM'] + [m for m in ('PURGE', 'BAN') if m not in CUSTOM]
+REQ_METHODS = M.STANDARD + CUSTOM + M.META + UNKNOWN_VERBS
+SUFFIXES = ['item', 'a', 'a_b', 'byID', 'Item', 'A', 'a_B', 'byid']
+DECOYS = ['on_GET', 'on_Get', 'on_get_ITEM', 'on_POST_item', 'On_get', 'on_get_']
 
 
 # ---------------------------------------------------------------------------------------------
@@ -253,11 +283,21 @@ def check_request(rec, b, method, path, checkpoints=(), final=True):
             rec.count('cls.route-kwargs')
         if alt['suffix']:
             rec.count('cls.suffixed-responder')
+            if alt['suffix'] != alt['suffix'].lower():
+                rec.count('cls.mixed-case-suffix-responder')
+        if method in CUSTOM:
+            rec.count('cls.custom-verb-responder')
         if any(isinstance(v, int) for v in alt['kwargs'].values()):
             rec.count('cls.route-int-kwarg')
     elif cls in ('405', 'auto-options'):
         if alt['suffix']:
             rec.count('cls.suffixed-' + cls)
+            if alt['suffix'] != alt['suffix'].lower():
+                rec.count('cls.mixed-case-suffix-' + cls)
+        if set(alt['allow']) & set(CUSTOM):
+            rec.count('cls.custom-verb-in-allow.' + cls)
+        if method in CUSTOM:
+            rec.count('cls.custom-verb-405')
         if not alt['allow'] or alt['allow'] == ['OPTIONS']:
             rec.count('cls.empty-method-set')
     elif cls == 'sink':
@@ -293,7 +333,7 @@ def check_request(rec, b, method, path, checkpoints=(), final=True):
                                 exp['masks'], tuple(alt.get('over', ()))))
     if not ok:
         known = None
-        w = {'cfg': b.cfg, 'nops': b.nops, 'checkpoints': list(checkpoints), 'method': method, 'path': path,
+        w = {'cfg': b.cfg, 'custom': CUSTOM, 'nops': b.nops, 'checkpoints': list(checkpoints), 'method': method, 'path': path,
              'expected': exp['alts'], 'observed': obs, 'mechanisms': verdicts}
         rec.violation(verdicts[0], w, known_key=known)
     return cls
@@ -310,24 +350,44 @@ def family_method_subsets():
     for mask in range(32):
         S = [m for i, m in enumerate(U5) if mask >> i & 1]
         rest = [m for m in U5 if m not in S] + ['DELETE']
-        for suffixed in (False, True):
+        for suffixed in (None, 'x', 'byID'):
             if suffixed and not S:
                 continue            # add_route refuses a suffix without responders; not this property
             for stack in ('wsgi', 'asgi'):
-                if suffixed:
+                if suffixed == 'byID':
+                    # the complement lives under the same suffix spelled in lower case, and under no suffix
+                    attrs = [M.responder_name(m, 'byID') for m in S] + [M.responder_name(m, 'byid') for m in rest] + \
+                            [M.responder_name(m) for m in rest]
+                elif suffixed:
                     attrs = [M.responder_name(m, 'x') for m in S] + [M.responder_name(m) for m in rest]
                 else:
-                    attrs = [M.responder_name(m) for m in S] + [M.responder_name(m, 'x') for m in rest]
+                    attrs = [M.responder_name(m) for m in S] + [M.responder_name(m, 'x') for m in rest] + DECOYS
                 yield {
-                    'stack': stack, 'sink_first': bool(mask & 1) ^ suffixed,
+                    'stack': stack, 'sink_first': bool(mask & 1) ^ bool(suffixed),
                     'resources': [{'callable': sorted(attrs)}],
                     'ops': [['sink', 0, '/', 0, False],
                             ['static', 0, '/r0', 0, 'index.html', False],
-                            ['route', '/r0/{id}', 0, 'x' if suffixed else None]],
+                            ['route', '/r0/{id}', 0, suffixed]],
                 }
 
 
-SUBSET_REQUESTS = [(m, '/r0/7') for m in U5 + ['PUT', 'DELETE', 'FOO', 'get']] + [('GET', '/other'), ('PUT', '/r0')]
+def family_custom_verbs():
+    """(processes with custom verbs) all subsets of {GET, OPTIONS} + the custom verbs x plain/suffixed x stacks."""
+    uni = ['GET', 'OPTIONS'] + CUSTOM
+    for mask in range(1 << len(uni)):
+        S = [m for i, m in enumerate(uni) if mask >> i & 1]
+        rest = [m for m in uni if m not in S]
+        for suffix in (None, 'Item'):
+            if suffix and not S:
+                continue
+            for stack in ('wsgi', 'asgi'):
+                attrs = [M.responder_name(m, suffix) for m in S] + \
+                        [M.responder_name(m, None if suffix else 'Item') for m in rest]
+                yield {'stack': stack, 'sink_first': bool(mask & 1), 'resources': [{'callable': sorted(attrs)}],
+                       'ops': [['sink', 0, '/', 0, False], ['route', '/r0/{id}', 0, suffix]]}
+
+
+SUBSET_REQUESTS = [(m, '/r0/7') for m in U5 + ['PUT', 'DELETE', 'FOO', 'get', 'PURGE']] + [('GET', '/other'), ('PUT', '/r0')]
 
 
 def family_orders():
@@ -401,7 +461,7 @@ FIELD_VALUES = ['7', '042', 'abc', 'x', 'é', 'common.txt', 'sub', 'Zz-9', '12']
 
 
 def route_pool():
-    pool = ['/', '/{top}', '/st0/common.txt', '/st1/{file}', '/s0/{id}', '/s1', '/s2/{a}/{b}']
+    pool = ['/', '/{top}', '/st0/common.txt', '/st1/{file}', '/s0/{id}', '/s1', '/s2/{a}/{b}', '/R0/x', '/r0/X']
     for k, f in FIELD_BY_NS.items():
         pool += ['/r%d' % k, '/r%d/%s' % (k, f), '/r%d/x' % k, '/r%d/%s/sub' % (k, f), '/r%d/x/{tail}' % k,
                  '/r%d/' % k]
@@ -431,12 +491,12 @@ def sink_pool(rng):
 
 def static_prefix_pool(rng):
     k = rng.randrange(3)
-    return ['/st%d' % k, '/st%d/' % k, '/st%d/sub' % k, '/r%d' % k, '/s%d' % k, '/', '/st%d' % ((k + 1) % 3)]
+    return ['/st%d' % k, '/st%d/' % k, '/st%d/sub' % k, '/r%d' % k, '/s%d' % k, '/', '/st%d' % ((k + 1) % 3), '/St%d' % k]
 
 
 def gen_method_subset(rng):
     r = rng.random()
-    universe = M.STANDARD + M.META
+    universe = M.STANDARD + CUSTOM + M.META
     if r < 0.1:
         return []
     if r < 0.5:
@@ -451,14 +511,21 @@ def gen_method_subset(rng):
 def gen_resource(rng):
     attrs = {M.responder_name(m) for m in gen_method_subset(rng)}
     suffixes = []
-    for sfx in rng.sample(SUFFIXES, rng.choice([0, 1, 1, 2, 3])):
+    chosen = rng.sample(SUFFIXES, rng.choice([0, 1, 1, 2, 3]))
+    for sfx in list(chosen):
+        # a suffix spelled with upper-case letters usually comes with its lower-case twin (other responders)
+        if sfx != sfx.lower() and sfx.lower() not in chosen and rng.random() < 0.7:
+            chosen.append(sfx.lower())
+    for sfx in chosen:
         ms = gen_method_subset(rng) or ['GET']
         attrs |= {M.responder_name(m, sfx) for m in ms}
         suffixes.append(sfx)
+    if rng.random() < 0.25:
+        attrs |= set(rng.sample(DECOYS, rng.randint(1, 3)))     # callables that are NOT responders of any route here
     non = []
     if rng.random() < 0.25:
         for _ in range(rng.randint(1, 3)):
-            n = M.responder_name(rng.choice(M.STANDARD), rng.choice([None] + suffixes))
+            n = M.responder_name(rng.choice(M.STANDARD + CUSTOM), rng.choice([None] + suffixes))
             if n not in attrs and n not in non:
                 non.append(n)
     return {'callable': sorted(attrs), 'noncallable': non, 'falsy': rng.random() < 0.15, 'suffixes': suffixes}
@@ -511,7 +578,8 @@ def gen_config(rng):
         for _ in range(2):
             path = '/' + '/'.join(s[1] if s[0] == 'lit' else rng.choice(FIELD_VALUES) for s in segs)
             hints += [path, path + '/', path + '/extra', path.rsplit('/', 1)[0] or '/']
-    hints += ['/', '/zz', '/r0/7', '/s0/12', '/st0/common.txt', '/abc/def.txt', '/r1/abc', '/r1/12', '/r2/x/sub']
+    hints += ['/', '/zz', '/r0/7', '/s0/12', '/st0/common.txt', '/abc/def.txt', '/r1/abc', '/r1/12', '/r2/x/sub',
+              '/R0/x', '/r0/x', '/r0/X', '/St0/common.txt', '/ST0/common.txt', '/S0/12']
     return {'stack': rng.choice(['wsgi', 'asgi']), 'sink_first': rng.random() < 0.5,
             'resources': resources, 'ops': ops}, sorted(set(hints))
 
@@ -561,9 +629,18 @@ def run(rec):
                        'unknown verb on a matched route may be answered 400, 405 or 501 but must not run user code',
                        'when several route templates match one path any of them is accepted',
                        'static-route answers to OPTIONS and to unclean remainders are not judged beyond "no sink/responder ran"']
+    if list(falcon.constants.FALCON_CUSTOM_HTTP_METHODS) != CUSTOM:
+        rec.mark_inconclusive('custom verbs not configured as planned: %r vs %r'
+                              % (falcon.constants.FALCON_CUSTOM_HTTP_METHODS, CUSTOM))
+    rec.count('proc.custom-verbs' if CUSTOM else 'proc.default-verbs')
     root = make_dirs()
     try:
         idx = 0
+        if CUSTOM:
+            reqs = [(m, '/r0/7') for m in ['GET', 'OPTIONS', 'PUT', 'FOO'] + CUSTOM + [CUSTOM[0].lower()]]
+            for cfg in family_custom_verbs():
+                run_config_fixed(rec, root, cfg, reqs, every_step=False)
+                rec.count('exh.custom-verb-configs')
         for cfg in family_method_subsets():
             idx += 1
             if idx % rec.nshards != rec.shard:
@@ -618,7 +695,14 @@ def run(rec):
         rec.floor('cls.%s.readd-static-decisive' % stack, 40)
     rec.floor('exh.readd-sink-configs', 288)
     rec.floor('exh.readd-static-configs', 192)
-    rec.floor('exh.subset-configs', 126)
+    rec.floor('exh.subset-configs', 188)
+    rec.floor('proc.custom-verbs', 1)
+    rec.floor('proc.default-verbs', 1)
+    rec.floor('exh.custom-verb-configs', 62)
+    for c in ('cls.mixed-case-suffix-responder', 'cls.mixed-case-suffix-405', 'cls.mixed-case-suffix-auto-options',
+              'cls.custom-verb-responder', 'cls.custom-verb-405', 'cls.custom-verb-in-allow.405',
+              'cls.custom-verb-in-allow.auto-options'):
+        rec.floor(c, 40)
     rec.floor('exh.order-configs', 480)
     rec.floor('random.configs', 50)
 
